@@ -252,16 +252,18 @@ def lincomb_cases(rng, tier, S):
             for alias in ALIAS:
                 for a, b in pairs:
                     run(shape, alias, a, b)
-        # B. the BLAS regime (and its borders)
+        # B. the BLAS regime (and its borders).  The decision tree is shared with the fallback
+        #    regime (covered exhaustively in A); here the three BLAS primitives, the regime rule and
+        #    the ravel order are exercised.  Each case costs ~2 s of vm_compute, hence the small numbers.
         if bdt:
-            nb = (8 if main else 3) if quick else (len(pairs) if main else 8)
+            nb = (3 if main else 1) if quick else (10 if main else 4)
             for alias in ALIAS:
                 for a, b in rng.sample(pairs, nb):
                     run((50000,), alias, a, b, want_blas=True)
-            if main or not quick:
+            if dtype == 'float64' or not quick:
                 for shape in edge:
                     for alias in ALIAS:
-                        for a, b in rng.sample(pairs, 2 if quick else 4):
+                        for a, b in rng.sample(pairs, 1 if quick else 2):
                             run(shape, alias, a, b, want_blas=rng.random() < 0.7)
         # C. shape sweep
         for shape in small + med:
@@ -277,9 +279,9 @@ def lincomb_cases(rng, tier, S):
                         run(shape, alias, a, b, 'unused')
                     for a, b in rng.sample(pairs, 6 if main else 3):
                         run(shape, alias, a, b, 'operand')
-            if bdt:
+            if bdt and (main or not quick):
                 for alias in ALIAS:
-                    for a, b in rng.sample(pairs, (4 if main else 1) if quick else 10):
+                    for a, b in rng.sample(pairs, 1 if quick else (6 if main else 2)):
                         run((50000,), alias, a, b, 'unused', want_blas=True)
 
 
